@@ -16,6 +16,10 @@ const OUTS: u16 = 0x8010;
 
 pub const RATES: [usize; 9] = [8000, 11025, 22050, 32000, 44100, 48000, 96000, 192000, 384000];
 
+fn rng_byte(x: i64) -> u8 {
+    (x as u8).wrapping_mul(37) & 7
+}
+
 fn level(v: u8) -> f64 {
     let ear = v & 0x10 != 0;
     let mic = v & 0x08 != 0;
@@ -28,12 +32,12 @@ impl Property for C19 {
     }
     fn runs(&self, tier: Tier) -> u64 {
         match tier {
-            Tier::Quick => 500,
-            Tier::Thorough => 40_000,
+            Tier::Quick => 3_000,
+            Tier::Thorough => 200_000,
         }
     }
     fn rule(&self) -> &'static str {
-        "per run: machine, sample rate (9 standard rates 8000..384000 or random), volume 0..100, beeper/AY enables (AY optionally programmed with random registers), 3..10 frames each with 0..20 writes of bits 4/3 to port 0xFE at seeded T, drain policy always / every j-th frame / never with multi-frame host calls; oracle: samples per frame, per-sample beeper level +-1 sample, bounds, queue bound; distinct = (rate, machine, drain policy, toggles-per-frame bucket, device enables)"
+        "per run: machine, sample rate (9 standard rates 8000..384000 or random), volume 0..100, beeper/AY enables (AY optionally programmed with random registers), 3..10 frames each with 0..20 writes of bits 4/3 to port 0xFE at seeded T, SZX snapshot loads between frames (speaker/MIC levels taken from the file), drain policy always / every j-th frame / never with multi-frame host calls; oracle: samples per frame, per-sample beeper level +-1 sample, bounds, queue bound; distinct = (rate, machine, drain policy, toggles-per-frame bucket, device enables)"
     }
     fn state_measure(&self) -> &'static str {
         "distinct (samples-per-frame, toggle position in samples) pairs checked"
@@ -51,7 +55,7 @@ impl Property for C19 {
         ]
     }
     fn expected_probes(&self) -> Vec<&'static str> {
-        vec!["drain_always", "drain_sometimes", "drain_never", "toggle_checked", "ay_enabled", "many_toggles_in_frame", "multi_frame_call", "rate_low", "rate_high"]
+        vec!["drain_always", "drain_sometimes", "drain_never", "toggle_checked", "ay_enabled", "many_toggles_in_frame", "multi_frame_call", "rate_low", "rate_high", "szx_load_between_frames"]
     }
 
     fn gen(&self, rng: &mut Rng, tier: Tier, _idx: u64) -> Scenario {
@@ -66,6 +70,7 @@ impl Property for C19 {
         sc.set("ay_seed", if rng.bool() { (rng.next() >> 8) as i64 } else { 0 });
         sc.set("drain", *rng.pick(&[0i64, 0, 1, 2]));
         sc.set("drain_j", rng.range(2, 4));
+        let snaps = rng.chance(1, 3);
         let f: i64 = if m128 { 70908 } else { 69888 };
         let frames = if tier == Tier::Quick { rng.range(3, 6) } else { rng.range(3, 12) };
         for fr in 0..frames {
@@ -76,6 +81,10 @@ impl Property for C19 {
                 sc.op("out", &[fr, t, (rng.u8() & 0x1F) as i64]);
             }
             sc.op("frame", &[fr, rng.range(1, 3)]);
+            if snaps && rng.chance(1, 2) {
+                // the host loads an SZX snapshot between two frames; it carries the speaker / MIC levels
+                sc.op("snap", &[(rng.u8() & 0x18) as i64, rng.range(0, 7)]);
+            }
         }
         sc
     }
@@ -164,6 +173,35 @@ impl Property for C19 {
                     st.pc = IDLE;
                     st.to_impl(e.verif_cpu());
                     ctx.units += 1;
+                }
+                "snap" => {
+                    if frame_done > 0 || !pending.is_empty() || !changes.is_empty() || e.verif_frame_clocks() > 64 {
+                        continue;
+                    }
+                    ctx.probe("szx_load_between_frames");
+                    let fe = (op.arg(0) & 0x18) as u8;
+                    let mut s = crate::snapfmt::SnapState::new(m128);
+                    s.border = (op.arg(1) & 7) as u8;
+                    s.cpu.pc = IDLE;
+                    s.cpu.sp = 0x8FF0;
+                    let opt = crate::snapfmt::SzxOptions { fe_hi: fe, fe_low: Some(rng_byte(op.arg(1))), ..Default::default() };
+                    let bytes = crate::snapfmt::write_szx(&s, &opt);
+                    e.load_snapshot(rustzx_core::host::Snapshot::Szx(crate::host::SimAsset::plain(bytes))).map_err(|x| Fail::new("C19.load", "", format!("{:?}", x)))?;
+                    write_mem(&mut e, IDLE, &[0xF3, 0x18, 0xFE]);
+                    write_mem(&mut e, OUTS, &[0xD3, 0xFE]);
+                    let mut st = cpu_state(&mut e);
+                    st.pc = IDLE;
+                    st.sp = 0x8FF0;
+                    st.iff1 = false;
+                    st.iff2 = false;
+                    st.halted = false;
+                    st.to_impl(e.verif_cpu());
+                    // the levels the snapshotted program had set are in force from here on
+                    cur_level = level(fe);
+                    start_level = cur_level;
+                    if ay_active {
+                        // the snapshot carries no AY chunk: what the AY plays afterwards is not this property's matter
+                    }
                 }
                 "frame" => {
                     // complete the frame (possibly several in one host call for non-draining policies)
